@@ -194,3 +194,71 @@ Definition e_c07_nanmedian (v : val) : val :=
   | Some l => vOptQ (medianQ (somes l))
   | None => bad_input
   end.
+
+(* ---- error outcomes: [table, chrom?, starts?, ends?, mode] -> rows | the exception's name *)
+Definition e_c07_in_ranges_e (v : val) : val :=
+  match get5 (getList getTrow) (getOpt getS) (getOpt (getList getZ)) (getOpt (getList getZ)) getMode v with
+  | Some (t, c, ss, es, m) =>
+      match in_ranges_e t c ss es m with
+      | RqOk l => vRows l
+      | RqRaises e => VErr e
+      end
+  | None => bad_input
+  end.
+
+(* ---- into_ranges with dynamically typed cells.  A cell is ["s", string] | ["f", float or None] |
+   ["i", int] | ["b", bool]; [has_column, table, other, column = [[label, cell] ...], default cell,
+   summary]; summary: None | "len" (a callable: the number of hits) | ["const", cell] *)
+Definition getCell (v : val) : option icell :=
+  match v with
+  | VL [VS k; x] =>
+      if String.eqb k "s" then match x with VS s => Some (ICStr s) | _ => None end
+      else if String.eqb k "f" then match getFloat x with Some q => Some (ICFloat q) | None => None end
+      else if String.eqb k "i" then match x with VZ z => Some (ICInt z) | _ => None end
+      else if String.eqb k "b" then match x with VB b => Some (ICBool b) | _ => None end
+      else None
+  | _ => None
+  end.
+
+Definition vCell (c : icell) : val :=
+  match c with
+  | ICStr s => VL [VS "s"; VS s]
+  | ICFloat x => VL [VS "f"; vOptQ x]
+  | ICInt z => VL [VS "i"; VZ z]
+  | ICBool b => VL [VS "b"; VB b]
+  end.
+
+Definition getSummary (v : val) : option isummary :=
+  match v with
+  | VNone => Some ISNone
+  | VS _ => Some (ISFunc (fun h => Some (ICInt (Z.of_nat (length h)))))
+  | VL [VS _; c] => match getCell c with Some x => Some (ISConst x) | None => None end
+  | _ => None
+  end.
+
+Definition e_c07_into_full (v : val) : val :=
+  match v with
+  | VL [VB has; t; o; col; d; f] =>
+      match getList getTrow t, getList getTrow o, getList (getPair getZ getCell) col, getCell d, getSummary f with
+      | Some t, Some o, Some col, Some d, Some f =>
+          match ga_into_ranges has t o (assoc (ICInt 0) col) d f with
+          | None => VErr "returns dest"
+          | Some l => VL (map (fun x => match x with Some c => vCell c | None => VErr "TypeError" end) l)
+          end
+      | _, _, _, _, _ => bad_input
+      end
+  | _ => bad_input
+  end.
+
+(* label lookups: [rows, labels] -> rows_loc ; [rows, positions] -> rows_iloc *)
+Definition e_c07_loc (v : val) : val :=
+  match getPair (getList getRow) (getList getZ) v with
+  | Some (t, ls) => vRows (rows_loc t ls)
+  | None => bad_input
+  end.
+
+Definition e_c07_iloc (v : val) : val :=
+  match getPair (getList getRow) (getList getZ) v with
+  | Some (t, ps) => vRows (rows_iloc t ps)
+  | None => bad_input
+  end.
